@@ -535,6 +535,26 @@ func writeGenerated(fset *token.FileSet, f *ast.File, abs, rel string) {
 		fatal("write %s: %v", out, err)
 	}
 	rep.Rewrites["generated-dispatcher"]++
+	// The simulated session builds its handler the way func main does.  Trees
+	// whose main.go has a constructor newHandler(srv) use it verbatim; trees
+	// without one fall back to protocol.ServerHandler over the dispatcher.
+	hasNewHandler := false
+	for _, d := range nf.Decls {
+		if fd, ok := d.(*ast.FuncDecl); ok && fd.Recv == nil && fd.Name.Name == "newHandler" && fd.Type.Params != nil && len(fd.Type.Params.List) == 1 {
+			hasNewHandler = true
+		}
+	}
+	body := "protocol.ServerHandler(newServerDispatcher(srv), nil)"
+	if hasNewHandler {
+		body = "newHandler(srv)"
+		rep.Rewrites["generated-handler-from-main"]++
+	}
+	shim := "// Code generated by /verif/tools/instrument. DO NOT EDIT.\n\n//go:build verifsim\n\npackage simwire\n\nimport (\n\t\"go.lsp.dev/jsonrpc2\"\n\t\"go.lsp.dev/protocol\"\n\n\t\"github.com/juev/hledger-lsp/internal/server\"\n)\n\nvar _ = protocol.ServerHandler\n\nfunc buildHandler(srv *server.Server) jsonrpc2.Handler {\n\treturn " + body + "\n}\n"
+	if base == "main" {
+		if err := os.WriteFile(filepath.Join(outDir, "gen_handler.go"), []byte(shim), 0o644); err != nil {
+			fatal("write gen_handler.go: %v", err)
+		}
+	}
 }
 
 // writeServerHooks adds a verifsim-tagged file to package server (scratch copy
